@@ -70,6 +70,13 @@ pub fn current_actor() -> Option<Who> {
 static CLOCK_MS: AtomicU64 = AtomicU64::new(0);
 static CAP_BROADCAST: AtomicUsize = AtomicUsize::new(0);
 static CAP_DELIVERY: AtomicUsize = AtomicUsize::new(0);
+static GC_DEFAULT_GATED: AtomicBool = AtomicBool::new(false);
+
+/// Stores created from now on start with their GC gate closed (`Store::new` itself can queue
+/// collector work; a harness that steps the collector must own it from the first task on).
+pub fn set_gc_default_gated(gated: bool) {
+    GC_DEFAULT_GATED.store(gated, Ordering::SeqCst);
+}
 
 /// Wall-clock override (ms since the epoch) used by `is_expired`; `None` = real clock.
 pub fn set_clock(ms: Option<u64>) {
@@ -156,7 +163,10 @@ impl Default for Hooks {
             inner: Arc::new(Inner {
                 sched: RwLock::new(None),
                 reads: AtomicU64::new(0),
-                gate: Mutex::new(GateState::default()),
+                gate: Mutex::new(GateState {
+                    gated: GC_DEFAULT_GATED.load(Ordering::SeqCst),
+                    ..GateState::default()
+                }),
                 gate_cv: Condvar::new(),
                 alive: Arc::new(()),
             }),
